@@ -13,6 +13,7 @@ RULE = ('seeded worlds with exceptions (ValueError, KeyError, AssertionError, cu
         'in-process and in children; oracle: run_internal returns, every selected test whose '
         'layers can be set up ran, layers torn down, summaries present. distinct = digest of '
         'per-pid hook-site sequence + fired faults; non-trivial = a fault fired')
+RULE += (' ' + 'Later additions: every group of tests that did not run needs a failed set-up attempt of its own (a base that failed once is tried again for the next layer); AttributeError/RuntimeError from layer hooks.')
 BIAS = dict(p_weird_ids=0.15, n_test_faults=[0, 1, 2, 3, 4, 5], n_layer_faults=[0, 0, 1, 2],
             layer_kinds=('setUp', 'tearDown', 'setUp', 'tearDown', 'nie'), p_buffer=0.5, p_j=0.2, p_repeat=0.15,
             p_shuffle=0.15, v=[0, 1, 2, 3], p_occ=0.2,
